@@ -2555,6 +2555,10 @@ def precompare_C14(case, impl, model):
     t = case.split(" ")
     if t[:2] != ["k", "supd"] or impl == model or "PANIC" in impl or "PANIC" in model:
         return None
+    if len(t) == 4 and t[3] == "0" and impl == t[2]:
+        # "zero (identity) dt": returning the state unchanged bit for bit IS the identity (today's arithmetic turns a -0.0 into +0.0,
+        # which is the same value; both are what the property states)
+        return ("drift", "the state is returned unchanged at dt = 0")
     a, b = impl.split("/"), model.split("/")
     if len(a) != 3 or len(b) != 3:
         return None
